@@ -82,6 +82,10 @@ type world struct {
 	stops      []*stopSide
 	lastOp     string
 	closed     bool
+	pipes      []*pipe
+	done       chan struct{}
+	stalled    bool // the virtual-time watchdog fired: the case is inconclusive
+	concurrent bool // several requests in flight: no synctest.Wait inside a request
 	lenient    bool // faults are being injected: any refusal / lost answer is acceptable, an OK still is not
 }
 
@@ -146,6 +150,24 @@ func newWorld(cfg relayCfg, lim rcmgr.ConcreteLimitConfig, plan *faultPlan) (*wo
 		return nil, err
 	}
 	w.m = newModel(cfg, t0)
+	// Virtual-time watchdog: the relay's and the resource manager's tickers keep a bubble "alive" for
+	// ever, so a scenario goroutine waiting for something that never happens would spin through
+	// virtual time instead of being reported as a deadlock. After 30 virtual days every pipe is reset
+	// (which unblocks everything) and the case is reported as inconclusive.
+	w.done = make(chan struct{})
+	go func() {
+		select {
+		case <-w.done:
+		case <-time.After(30 * 24 * time.Hour):
+			w.mu.Lock()
+			w.stalled = true
+			pp := append([]*pipe(nil), w.pipes...)
+			w.mu.Unlock()
+			for _, p := range pp {
+				p.e[0].resetPipe()
+			}
+		}
+	}()
 	// all requests happen at x.5 s after the relay's start so that no request, expiry or circuit
 	// deadline ever coincides with a collection tick (t0 + k min): sub-second ordering at such a
 	// coincidence is not fixed by the statement
@@ -175,6 +197,7 @@ func (w *world) shutdown() {
 	synctest.Wait()
 	w.relay.Close()
 	w.rm.Close()
+	close(w.done)
 	synctest.Wait()
 }
 
@@ -259,6 +282,7 @@ func (w *world) openHop(c *mconn) (*fstream, *end, error) {
 	}
 	p := newPipe(w.bufmax)
 	w.mu.Lock()
+	w.pipes = append(w.pipes, p)
 	w.nstream++
 	id := fmt.Sprintf("h%d", w.nstream)
 	w.mu.Unlock()
@@ -310,6 +334,7 @@ func (w *world) hostNewStream(ctx context.Context, p peer.ID, pid protocol.ID) (
 	}
 	pp := newPipe(w.bufmax)
 	w.mu.Lock()
+	w.pipes = append(w.pipes, pp)
 	w.nstream++
 	id := fmt.Sprintf("s%d", w.nstream)
 	w.mu.Unlock()
@@ -536,7 +561,9 @@ func (w *world) reserve(c *mconn) string {
 func denyClass(s statusSet) string {
 	var l []string
 	for _, v := range s {
-		l = append(l, strings.TrimSuffix(v, "?"))
+		if !strings.HasSuffix(v, "?") { // only the reasons that definitely apply
+			l = append(l, v)
+		}
 	}
 	sort.Strings(l)
 	return strings.Join(l, "+")
@@ -546,15 +573,16 @@ func denyClass(s statusSet) string {
 // CONNECT
 
 type connOutcome struct {
-	Got    bool
-	Status pbv2.Status
-	Err    string
-	limit  *pbv2.Limit
-	fs     *fstream
-	pe     *end
-	st     *stopSide
-	tResp  time.Time
+	Got       bool
+	Status    pbv2.Status
+	Err       string
+	limit     *pbv2.Limit
+	fs        *fstream
+	pe        *end
+	st        *stopSide
+	tResp     time.Time
 	respBytes int
+	nstops    int // stop streams that existed before this request
 }
 
 func (o *connOutcome) String() string {
@@ -569,13 +597,15 @@ func (w *world) doConnect(c *mconn, dst peer.ID, req string, sc stopScript) *con
 	w.mu.Lock()
 	nstops := len(w.stops)
 	w.mu.Unlock()
-	w.setScript(sc)
-	defer func() { w.mu.Lock(); w.nextScript = nil; w.mu.Unlock() }()
+	if sc.Kind != "ok" || sc.Delay != 0 { // (the default script is "ok"; concurrent callers never set one)
+		w.setScript(sc)
+		defer func() { w.mu.Lock(); w.nextScript = nil; w.mu.Unlock() }()
+	}
 	fs, pe, err := w.openHop(c)
 	if err != nil {
 		return &connOutcome{Err: "open: " + err.Error()}
 	}
-	out := &connOutcome{fs: fs, pe: pe}
+	out := &connOutcome{fs: fs, pe: pe, nstops: nstops}
 	pe.SetDeadline(time.Now().Add(peerPatience))
 	msg := &pbv2.HopMessage{Type: pbv2.HopMessage_CONNECT.Enum(), Peer: &pbv2.Peer{Id: []byte(dst)}}
 	switch req {
@@ -630,6 +660,9 @@ func (w *world) doConnect(c *mconn, dst peer.ID, req string, sc stopScript) *con
 		out.Got, out.Status, out.limit, out.tResp = true, resp.GetStatus(), resp.GetLimit(), time.Now()
 	}
 	pe.SetDeadline(time.Time{})
+	if w.concurrent {
+		return out // no quiescence point (and no attribution of stop streams) while others are in flight
+	}
 	synctest.Wait()
 	w.mu.Lock()
 	if len(w.stops) > nstops {
@@ -677,10 +710,11 @@ func (w *world) connectReq(c *mconn, dst int, req string, sc stopScript) (string
 		out.pe.resetPipe()
 		if vanished {
 			// the destination may still answer (after its delay) to a relay whose source is gone
-			time.Sleep(sc.Delay + time.Second)
+			// (and every handshake timeout of the relay has passed afterwards)
+			time.Sleep(sc.Delay + 61*time.Second)
 			synctest.Wait()
 			w.mu.Lock()
-			if out.st == nil && len(w.stops) > 0 {
+			if out.st == nil && len(w.stops) > out.nstops {
 				out.st = w.stops[len(w.stops)-1]
 			}
 			w.mu.Unlock()
